@@ -154,6 +154,16 @@ static void restoreTarget()
   else syscall(SYS_symlinkat, G->original.c_str(), AT_FDCWD, G->tmp.c_str());
   syscall(SYS_renameat2, AT_FDCWD, G->tmp.c_str(), AT_FDCWD, G->target.c_str(), 0);
 }
+// race mode: restore through a hard link to a kept copy (two syscalls), so the path spends about as much
+// time being the original file as being the symlink
+static void restoreTargetFast()
+{
+  if (G->initial != 'F') { restoreTarget(); return; }
+  std::string keep = G->target + ".vforig";
+  syscall(SYS_unlinkat, AT_FDCWD, G->tmp.c_str(), 0);
+  syscall(SYS_linkat, AT_FDCWD, keep.c_str(), AT_FDCWD, G->tmp.c_str(), 0);
+  syscall(SYS_renameat2, AT_FDCWD, G->tmp.c_str(), AT_FDCWD, G->target.c_str(), 0);
+}
 static bool captureInitial(Spec &s)
 {
   struct stat st;
@@ -285,6 +295,7 @@ static int modeRace(const vf::Args &a)
     Spec &s = specs[si];
     if (!captureInitial(s)) { fprintf(f, "{\"t\":\"skip\",\"spec\":%zu}\n", si); continue; }
     G = &s;
+    if (s.initial == 'F') rawWriteFile(s.target + ".vforig", s.original);
     std::atomic<bool> stop{false};
     std::atomic<uint64_t> flips{0};
     uint64_t pauseSeed = rng.next();
@@ -295,7 +306,7 @@ static int modeRace(const vf::Args &a)
       {
         swapToSecret();
         if (r.chance(0.5)) vf::shim::rawSleepUs(r.below(30));
-        restoreTarget();
+        restoreTargetFast();
         if (r.chance(0.5)) vf::shim::rawSleepUs(r.below(30));
         flips.fetch_add(1, std::memory_order_relaxed);
       }
@@ -325,6 +336,7 @@ static int modeRace(const vf::Args &a)
     }
     stop.store(true);
     sw.join();
+    if (s.initial == 'F') syscall(SYS_unlinkat, AT_FDCWD, (s.target + ".vforig").c_str(), 0);
     std::string kinds = "[";
     bool first = true;
     for (auto &kv : foundSample) { if (!first) kinds += ','; first = false; kinds += "{\"n\":" + std::to_string(foundKinds[kv.first]) + ",\"r\":" + kv.second + "}"; }
